@@ -78,6 +78,7 @@ type shardStats struct {
 	FailFile    string            `json:"fail_file,omitempty"`
 	WallS       float64           `json:"wall_s"`
 	Replayed    int               `json:"replayed"`
+	Exhaustive  bool              `json:"exhaustive"`
 }
 
 const maxHashes = 250000
@@ -337,4 +338,43 @@ func KnownOpen(property, id string) bool {
 		}
 	}
 	return knownOpen[property+"/"+id]
+}
+
+// ---------------------------------------------------------------- enumeration
+
+// MainEnum is Main for a check that enumerates its cases itself (bounded
+// exhaustive exploration): enumerate calls emit for every case; emit runs it,
+// records it and returns false after a failure (which is reported through t).
+// exhausted is what enumerate returns: whether the finite space was covered.
+func MainEnum[C any](t *testing.T, p Prop[C], enumerate func(emit func(c C) bool) (exhausted bool)) {
+	if only := os.Getenv("VERIF_ONLY"); only != "" && only != p.Name {
+		t.Skip("not selected")
+	}
+	if os.Getenv("VERIF_REPLAY") != "" {
+		Main(t, p)
+		return
+	}
+	col := newCollector(p.ID, p.Name, p.Rule)
+	defer col.flush()
+	failFile := os.Getenv("VERIF_FAILFILE")
+	failed := false
+	exhausted := enumerate(func(c C) bool {
+		raw, _ := json.Marshal(c)
+		out, err := safeRun(p, c)
+		col.record(raw, out)
+		if err != nil {
+			failed = true
+			col.st.Failed = true
+			col.st.FailMsg = err.Error()
+			col.st.FailFile = failFile
+			writeFail(failFile, raw, err.Error())
+			t.Errorf("property %s/%s violated: %s\ncase: %s", p.ID, p.Name, trunc(err.Error(), 4000), trunc(string(raw), 1500))
+			return false
+		}
+		return true
+	})
+	col.st.Exhaustive = exhausted && !failed
+	if !failed {
+		t.Logf("enumerated %d cases, exhausted=%v", col.st.Evaluations, exhausted)
+	}
 }
